@@ -13,7 +13,6 @@ import (
 	topoapi "github.com/onosproject/onos-api/go/onos/topo"
 	controllerutils "github.com/onosproject/onos-config/pkg/controller/utils"
 	proposalstore "github.com/onosproject/onos-config/pkg/store/v2/proposal"
-	pathutils "github.com/onosproject/onos-config/pkg/utils/path"
 	"github.com/onosproject/onos-config/pkg/utils/v2/tree"
 	utilsv2 "github.com/onosproject/onos-config/pkg/utils/v2/values"
 	"github.com/openconfig/gnmi/proto/gnmi_ext"
@@ -489,17 +488,22 @@ func (r *Reconciler) reconcileCommit(ctx context.Context, proposal *configapi.Pr
 func applyChangeToConfig(values map[string]*configapi.PathValue, path string, value *configapi.PathValue) (string, *configapi.PathValue) {
 	values[path] = value
 
-	// Walk up the path and make sure that there are no parents marked as deleted in the given map, if so, remove them
-	parent := pathutils.GetParentPath(path)
-	for parent != "" {
-		if v := values[parent]; v != nil && v.Deleted {
-			// Delete the parent marked as deleted and return its path and value
-			delete(values, parent)
-			return parent, v
+	// Walk up the path, at path element boundaries (a list entry /l[k=1] lies beneath /l, see utils.IsPathBelow),
+	// and make sure that there are no ancestors marked as deleted in the given map; if so, remove them and
+	// return the outermost one (it covers the others)
+	var deletedPath string
+	var deletedValue *configapi.PathValue
+	for i := len(path) - 1; i > 0; i-- {
+		if path[i] != '/' && path[i] != '[' {
+			continue
 		}
-		parent = pathutils.GetParentPath(parent)
+		parent := path[:i]
+		if v := values[parent]; v != nil && v.Deleted {
+			delete(values, parent)
+			deletedPath, deletedValue = parent, v
+		}
 	}
-	return "", nil
+	return deletedPath, deletedValue
 }
 
 func (r *Reconciler) reconcileApply(ctx context.Context, proposal *configapi.Proposal) (controller.Result, error) {
